@@ -123,10 +123,159 @@ def c17_spec():
     return {'bins': bins, 'run': run}
 REGISTRY['C17'] = c17_spec()
 
+def c19_spec():
+    import re, json, hashlib, subprocess
+    from concurrent.futures import ThreadPoolExecutor
+    import check as CK
+    GROUPS_Q = ['SO2', 'SE2', 'SO3', 'SE3', 'SE23', 'SGAL3', 'R1', 'R3', 'R9', 'BA', 'BT3', 'BT5']
+    GROUPS_T = GROUPS_Q + ['BT0', 'BT1', 'BR2', 'BS5', 'BL0']
+    FLAGS = CK.COMMON + CK.BUILDS['asan']
+
+    def bins(tier):
+        return []
+
+    def compile_tu(src_path, out, defs, syntax_only=False, std='-std=c++14'):
+        flags = [f for f in FLAGS if not f.startswith('-std=')] + [std]
+        if syntax_only:
+            flags = [f for f in flags if not f.startswith('-fsanitize') and f != '-fno-sanitize-recover=all' and f != '-O1'] + ['-fsyntax-only']
+        cmd = ['g++'] + flags + ['-D' + d for d in defs] + [src_path] + ([] if syntax_only else ['-o', out])
+        r = CK.sh(cmd)
+        return r.returncode, r.stdout
+
+    def cells_from_errors(err, src_text):
+        """map compiler diagnostics to the generated cell functions they occur in (via the TU line numbers in the instantiation traces)"""
+        starts = []  # (line, entry, storage)
+        for ln, line in enumerate(src_text.split('\n'), 1):
+            m = re.match(r'static void cell_(\d+)_(\w+)\(Fixture& F\)', line)
+            if m: starts.append((ln, int(m.group(1)), m.group(2)))
+        bad = {}
+        blocks = re.split(r'\n(?=\S[^\n]*: (?:In |error))', err)
+        for b in re.split(r'\n(?=In file included|\S+: In )', err):
+            if 'error' not in b: continue
+            lines = [int(x) for x in re.findall(r'c19_[A-Za-z0-9_]+\.cpp:(\d+):', b)]
+            first = (re.findall(r'error: ([^\n]*)', b) or [''])[0][:300]
+            for l in lines:
+                cand = [st for st in starts if st[0] <= l]
+                if cand:
+                    _, k, stg = cand[-1]
+                    bad.setdefault((k, stg), first)
+        return bad
+
+    def run(p, tier, seed, t0):
+        sys_path = os.path.join(CK.ROOT, 'harness')
+        import importlib.util
+        spec_ = importlib.util.spec_from_file_location('gen_c19', os.path.join(sys_path, 'gen_c19.py'))
+        gen = importlib.util.module_from_spec(spec_); spec_.loader.exec_module(gen)
+        allcells = gen.cells()
+        names = {k: n for k, n, _, _, _ in allcells}
+        groups = GROUPS_Q if tier == 'quick' else GROUPS_T
+        combos = [(g, sc) for g in groups for sc in ('double', 'float')]
+        wd = os.path.join(CK.CACHE, 'c19'); os.makedirs(wd, exist_ok=True)
+        fold = Fold(); fail = None
+        th = CK.tree_hash()
+
+        def one(gs):
+            g, sc = gs
+            tag = '%s_%s' % (g, sc)
+            res = {'g': g, 's': sc, 'not_instantiable': {}, 'exec': {}, 'mismatch': [], 'crash': [], 'notes': []}
+            exclude = set()
+            binp = None
+            for it in range(8):
+                src = gen.emit(exclude=exclude)
+                key = hashlib.sha256((th + src + ' '.join(FLAGS)).encode()).hexdigest()[:16]
+                srcp = os.path.join(wd, 'c19_%s.cpp' % tag); open(srcp, 'w').write(src)
+                binp = os.path.join(wd, 'c19_%s-%s' % (tag, key))
+                if os.path.exists(binp): break
+                for old in glob_old(wd, 'c19_%s-' % tag): os.remove(old)
+                rc, out = compile_tu(srcp, binp, ['MG=' + g, 'MS=' + sc])
+                if rc == 0: break
+                binp = None
+                bad = cells_from_errors(out, src)
+                new = {(names[k], stg): msg for (k, stg), msg in bad.items() if (names[k], stg) not in exclude}
+                if not new:
+                    # fall back: one syntax-only compile per cell still present
+                    res['notes'].append('diagnostics could not be attributed; per-cell syntax check')
+                    for k, n, kind, stg, code in allcells:
+                        if (n, stg) in exclude: continue
+                        sp = os.path.join(wd, 'c19_%s_cell.cpp' % tag); open(sp, 'w').write(gen.emit(only=(n, stg)))
+                        rc2, out2 = compile_tu(sp, None, ['MG=' + g, 'MS=' + sc], syntax_only=True)
+                        if rc2 != 0: new[(n, stg)] = (re.findall(r'error: ([^\n]*)', out2) or ['does not compile'])[0][:300]
+                    if not new:
+                        res['notes'].append('TU does not build but every cell does: ' + out[-400:]); break
+                for cell, msg in new.items():
+                    res['not_instantiable'][cell] = msg; exclude.add(cell)
+            if not binp or not os.path.exists(binp):
+                res['notes'].append('no executable'); return res
+            # execute; a crash is attributed to the cell after the last one reported, which is then excluded
+            for it in range(6):
+                outp = os.path.join(wd, 'c19_%s.out' % tag)
+                rc, out, to = CK.run_proc([binp, outp], None, 600)
+                lines = [json.loads(l) for l in open(outp)] if os.path.exists(outp) else []
+                done = [l for l in lines if l.get('t') == 'done']
+                for l in lines:
+                    if l.get('t') == 'exec': res['exec'][(l['entry'], l['storage'])] = l
+                    if l.get('t') == 'mismatch': res['mismatch'].append((l['entry'], l['storage']))
+                if done and rc == 0: break
+                order = [(n, stg) for k, n, kind, stg, code in allcells if (n, stg) not in exclude]
+                seen = [(l['entry'], l['storage']) for l in lines if l.get('t') == 'exec']
+                nxt = order[len(seen)] if len(seen) < len(order) else None
+                res['crash'].append((nxt, rc, out[-1500:]))
+                if nxt is None: break
+                exclude.add(nxt)
+                src = gen.emit(exclude=exclude); srcp = os.path.join(wd, 'c19_%s.cpp' % tag); open(srcp, 'w').write(src)
+                binp = os.path.join(wd, 'c19_%s-rerun%d' % (tag, it))
+                rc2, out2 = compile_tu(srcp, binp, ['MG=' + g, 'MS=' + sc])
+                if rc2 != 0: res['notes'].append('rebuild after crash failed'); break
+            return res
+
+        def glob_old(d, prefix):
+            import glob as _g
+            return [f for f in _g.glob(os.path.join(d, prefix + '*')) if re.search(r'-[0-9a-f]{16}$|-rerun\d$', f)]
+
+        with ThreadPoolExecutor(CK.NCPU) as ex:
+            results = list(ex.map(one, combos))
+        total_cells = 0
+        for r in results:
+            gs = '%s/%s' % (r['g'], r['s'])
+            for k, n, kind, stg, code in allcells:
+                total_cells += 1
+                cellkey = 'cell/%s/%s/%s' % (gs, stg, n)
+                if (n, stg) in r['exec']:
+                    c = fold.cells.setdefault(cellkey, {'n': 0, 'nontrivial': 0, 'maxerr': 0.0}); c['n'] += 1; c['nontrivial'] += 1; fold.evals += 1
+                    if not r['exec'][(n, stg)]['finite']:
+                        fold.viol('nonfinite-result/%s/%s/%s' % (gs, stg, n), 1.0, {'group': gs, 'entry': n, 'storage': stg})
+            for (n, stg), msg in r['not_instantiable'].items():
+                fold.viol('instantiate/%s/%s/%s' % (gs, stg, n), 1.0, {'group': gs, 'entry': n, 'storage': stg, 'first_diagnostic': msg})
+            for (n, stg) in r['mismatch']:
+                fold.viol('storage-mismatch/%s/%s/%s' % (gs, stg, n), 1.0, {'group': gs, 'entry': n, 'storage': stg, 'what': 'result differs bit-wise from the owning instantiation'})
+            for (cell, rc, out) in r['crash']:
+                kind = 'crash'
+                m = re.search(r'ERROR: AddressSanitizer: (\S+)', out)
+                if m: kind = 'asan-' + m.group(1)
+                elif 'runtime error' in out: kind = 'ubsan'
+                elif 'terminate called' in out: kind = 'uncaught-exception'
+                fold.viol('%s/%s/%s' % (kind, gs, '%s/%s' % (cell[1], cell[0]) if cell else 'unknown-cell'), float('inf'), {'group': gs, 'cell': cell, 'rc': rc, 'output_tail': out})
+            missing = [(n, stg) for k, n, kind, stg, code in allcells if (n, stg) not in r['exec'] and (n, stg) not in r['not_instantiable'] and (n, stg) not in [c[0] for c in r['crash']]]
+            if missing or r['notes']:
+                fail = (fail or '') + ' %s: %d cells neither executed nor diagnosed %s;' % (gs, len(missing), '; '.join(r['notes'])[:300])
+            fold.procs += 1
+        fold.samples = [{'group': 'SE3/double', 'entry': n, 'storage': stg, 'code': code} for k, n, kind, stg, code in allcells[:3]] + \
+                       [{'group': 'BT3/float', 'entry': n, 'storage': stg, 'code': code} for k, n, kind, stg, code in allcells[200:202]]
+        spec = {'level': 'exploration', 'rule': 'the finite matrix {%d documented API entries} x {storage kinds applicable: owning, Map, Map<const>} = %d cells per (group, scalar), x %d (group, scalar) pairs, is enumerated '
+                'completely; each cell is a generated function that is compiled, executed under ASan+UBSan on fixed operands, and whose result digest must equal the owning cell bit for bit; a cell is non-trivial when it was '
+                'executed; a cell that cannot be instantiated is attributed through the instantiation trace of the compiler diagnostics and reported with its first diagnostic' % (len(gen.ENTRIES), len(allcells), len(combos)),
+                'assumptions': ['g++ 12.2 -std=c++14 (the harness needs C++14; the library itself is C++11)', 'the compile step is a build-time observation (DESIGN.md 4/C19)']}
+        return finish(p, tier, seed, fold, spec, t0, harness_fail=fail, extra_cov={'exhaustive': True, 'cells_in_matrix': total_cells, 'groups': ['%s/%s' % c for c in combos], 'entries': len(gen.ENTRIES)})
+
+    return {'bins': bins, 'run': run}
+REGISTRY['C19'] = c19_spec()
+
 # ------------------------------------------------------------------------------------------------
 # MANIFEST metadata
 # ------------------------------------------------------------------------------------------------
 ENGINES = [
+    {'name': 'child-per-case enumerator', 'path': '/verif/harness/c17_decasteljau.cpp', 'serves_properties': ['C17'], 'kind_free_text': 'fork per configuration, parent watchdog, sanitizer + assertion aborts are verdicts'},
+    {'name': 'api-matrix builder', 'path': '/verif/harness/gen_c19.py', 'serves_properties': ['C19'], 'kind_free_text': 'generates one TU per (group, scalar) with one function per API cell; localises non-instantiable cells from compiler traces; executes the rest under ASan/UBSan'},
     {'name': 'ref-model differential monitor', 'path': '/verif/harness/model.cpp', 'serves_properties': ['C01', 'C02', 'C03', 'C04', 'C05', 'C06'],
      'kind_free_text': 'independent long-double matrix-Lie-group model (typed-in generators, Taylor expm, Shepperd-based log, FD Jacobians) used as oracle over stratified random workloads under ASan+UBSan'},
 ]
@@ -143,10 +292,22 @@ MANIFEST_META = {
     'C03': dict(engine='ref-model differential monitor', design_ref='DESIGN.md 4/C03', technique='differential runtime monitor over six element-production routes vs model exp/log',
                 text='X.log() is checked (finite, principal, exp_ref(log X)=X, equal to the model logarithm, log(q)=log(-q), t.exp().log()=t) on elements produced by six routes including both quaternion hemispheres and products of near-pi rotations (angle 2pi-eps), which no unit test generates.',
                 note=NOTE_NUM + ' Near pi the tolerance carries the documented conditioning term 16u/(pi-theta).'),
+    'C04': dict(engine='ref-model differential monitor', design_ref='DESIGN.md 4/C04', technique='runtime monitor: definitions vs long-double model + bit-exact differential comparison of 45 alias forms',
+                text='rplus/lplus/rminus/lminus/between are compared with the compositions they are documented to be, evaluated on the reference model, incl. the round trips (X+t)-X=t and X+(Y-X)=Y up to relative rotation pi-1e-6; every alias (plus/minus, operators, tangent-side forms, the functions.h facade incl. its Jacobian outputs, Map/Map<const> operands) must return bit-identical coefficients to the canonical member on the same operands.',
+                note=NOTE_NUM + ' Bit-identity of forwards is a sound expectation under the baseline FP model (no FMA contraction); measured 0 differences on the unchanged tree.'),
     'C05': dict(engine='ref-model differential monitor', design_ref='DESIGN.md 4/C05', technique='runtime monitor: analytic Jacobians vs 4th-order central differences of the definition on the long-double model',
                 text='Each returned Jacobian of inverse, log, exp, compose, between, rplus, lplus, rminus, lminus, act (w.r.t. every argument) is compared with the derivative of f(X (+) d) (-) f(X) computed on the reference model, at the 1e-6 relative bound the property states; argument rotation and relative rotation are swept independently from 0 to pi-1e-6, translations 0..1e6. A disagreement is judged only if the oracle agrees with itself at h/2 and 2h (otherwise counted as oracle-unresolved).',
                 note=NOTE_NUM + ' Samples within ~3e-6 of the cut locus with |time*velocity| >= 1e8 can be oracle-unresolved; they are counted in the evidence, not judged.'),
+    'C07': dict(engine='ref-model differential monitor', design_ref='DESIGN.md 4/C07', technique='exhaustive enumeration of generator indices + runtime monitor of algebra identities vs typed-in generator tables',
+                text='All generator indices of all groups, R1..R9 and 21 bundle layouts are enumerated and compared entry-wise (exact) with the documented tables; out-of-range indices must raise invalid_argument; hat/vee/bracket/inner/InnerWeights identities are checked on random tangents, exactly on small-integer tangents (where floating point is exact), within a few ulp otherwise.',
+                note=NOTE_NUM + ' The exact-arithmetic clause is observed on integer-valued tangents in double (all operations exact), see DESIGN.md for the status of the exact-rational scalar.'),
     'C06': dict(engine='ref-model differential monitor', design_ref='DESIGN.md 4/C06', technique='runtime monitor vs series-defined Jr (augmented expm of ad), model Adj/ad',
                 text='rjac/ljac are compared with sum_k (-ad)^k/(k+1)! evaluated as a block of expm([[-ad,I],[0,0]]) (no small-angle case analysis in the oracle), the inverses with the model inverse and as products, Adj/adj/smallAdj with their definitions on the reference matrices, at the 1e-6 relative bound the property states, densely in (sqrt(eps),1e-2) where the defects were.',
                 note=NOTE_NUM),
+    'C17': dict(engine='child-per-case enumerator', design_ref='DESIGN.md 4/C17', category='fault_enumeration', technique='exhaustive enumeration of (N,degree,k,closed) with one sanitized child process per configuration under a watchdog; reference De Casteljau on the model',
+                text='Every configuration of the stated box runs decasteljau in its own forked child under ASan+UBSan+_GLIBCXX_ASSERTIONS; non-termination (watchdog, after one re-run), aborts, out-of-range indices and sanitizer reports are violations; size, window ends and every curve point are compared with a reference evaluation on the long-double model; inputs that must raise are enumerated too.',
+                note='Exhaustive over the box only (quick N<=10,k<=2; thorough N<=16,k<=4); trajectories are 1-3 random draws per configuration. ' + NOTE_NUM),
+    'C19': dict(engine='api-matrix builder', design_ref='DESIGN.md 4/C19', technique='exhaustive generated API matrix: each cell compiled, executed under ASan/UBSan, digest compared bit-wise with the owning instantiation',
+                text='The finite matrix {126 documented entries} x {owning, Map, Map<const>} x {12 (quick) / 17 (thorough) groups incl. bundles} x {float,double} is enumerated completely; a cell that cannot be instantiated is a violation attributed through the compiler instantiation trace; every other cell is executed and must reproduce the owning cell bit for bit.',
+                note='The instantiation half is observed at build time (the one place where the deciding event is not an execution, see DESIGN.md 4/C19). Only g++ 12 is used.'),
 }
